@@ -37,6 +37,10 @@ CHECKS = {
    text="Each of the six conversions is proved to be the documented rotation: the atan2/asin arguments produced by symbolic execution of the real function equal rho*(Mv)_y, rho*(Mv)_x, (Mv)_z for M = rot_x(+-eps), rot_y(90-phi) or the galactic matrix (exact polynomial identities modulo sin^2+cos^2=1, ring normaliser), clamping never changes the asin argument, the returned Angles are those atan2/asin values (mod 360) in their documented ranges, a generic lemma recovers the unit vector from (atan2, asin), and back*forward = I, M^T M = I for every obliquity / latitude (so pairs are mutually inverse and preserve the angle between any two directions). angular_separation: sin^2(theta/2) = (1 - v1.v2)/2 with sum-of-squares certificates for the domain, symmetric, in [0,180]; relative_position_angle: atan2 arguments are the east/north components, antisymmetric east component; circle_diameter: a <= d <= 2a/sqrt(3) for every triangle (z3 NRA) plus an AST shape check of the two formulas.",
    note="R-mode; sin/cos/asin/atan2/sqrt are uninterpreted with axiom packs of true facts (listed in evidence); Angle.reduce_deg is used through its C03 contract. The 1e-9 degree clause in binary64 incl. poles, seam, antipodal and nearly coincident pairs is a bounded stand-in (Fibonacci sphere 2e3/1e5 directions). One genuine defect (math domain error next to a pole) found by the bounded sweep and repaired.",
    technique="contract-based deductive verification: AST symbolic execution + exact ring normaliser (sympy) for trig identities + z3 for ranges/lemmas; bounded run-time contracts for binary64", ref="DESIGN.md §3 C05"),
+ "C06": dict(category="proof",
+   text="precession_equatorial and precession_newcomb: the atan2/asin arguments obtained by symbolic execution of the real code equal R_y(theta).unitvec(alpha+zeta, delta) for the proper-motion corrected start angles (exact trig identities, ring normaliser); the returned right ascension is that atan2 value plus z (mod 360), the declination the asin value, and on the polar branch acos(sqrt(A^2+B^2)) with A^2+B^2+C^2 = 1; proper motion enters linearly in elapsed time; zero interval gives zeta = z = theta = 0; for IAU-1976 the backward parameters are exactly the negated, swapped forward ones (polynomial identities in both epochs), and the matrix lemma shows there-and-back = identity and P^T P = I (angles between stars preserved) for all parameters. precession_ecliptical: the same rotation identities with R_x(-eta), Pi + 174.876384, p; zero interval identity.",
+   note="R-mode; trig uninterpreted with axiom packs; Angle.reduce_deg / dms2deg through their C03 contracts (opaque reduced value r = x - 360 k). Bounded stand-ins (seeded sphere incl. 5 deg around both poles, epochs within +-5 centuries): 1e-9 deg in binary64, ecliptical there-and-back 1e-6 deg, route agreement through the mean obliquity 1e-4 deg, FK4 vs FK5 0.005 deg, orbital_equinox2equinox round trip. Four genuine defects found and repaired (Newcomb TypeError, missing acos at the pole, retrograde and small inclinations).",
+   technique="contract-based deductive verification: AST symbolic execution with cuts + exact ring normaliser + z3; bounded run-time contracts for binary64 and cross-polynomial clauses", ref="DESIGN.md §3 C06"),
 }
 NA_REASON = "check not built yet (work in progress; DESIGN.md has the plan)"
 
